@@ -79,3 +79,19 @@ package gnmi
 //@   ensures ok ==> conn != nil
 //@   ensures ok ==> connIDOf(conn) == connID
 //@ uninterp connIDOf(Conn) string
+
+// northbound relay of subscriptions
+//@ ghost targetLookups map[string]bool
+//@ ghost targetLookupCount int
+//@ ghost pollCalls int
+//@ ghost sbSubscribeCalls int
+//@ iface ConnManager.GetByTarget(ctx, targetID) (c, err)
+//@   modifies targetLookups[targetID], targetLookupCount
+//@   ensures targetLookups[targetID] && targetLookupCount == old(targetLookupCount) + 1
+//@   ensures err == nil ==> c != nil
+//@ iface Client.Poll() (err)
+//@   modifies pollCalls
+//@   ensures pollCalls == old(pollCalls) + 1
+//@ iface Client.Subscribe(ctx, q) (err)
+//@   modifies sbSubscribeCalls
+//@   ensures sbSubscribeCalls == old(sbSubscribeCalls) + 1
